@@ -73,6 +73,9 @@ type connPlan struct {
 	Msgs        []msgPlan    `json:"client_messages"`
 	Pings       int          `json:"pings"`
 	ReaderPause int          `json:"client_reader_pause_ms,omitempty"` // the client starts reading late: the server's queue / socket buffer fills
+	Early       string       `json:"early,omitempty"`             // handshake and first frame(s) in one write / break-offs around the hand-over, see early.go
+	EarlyMore   int          `json:"early_more_frames,omitempty"` // valid messages behind the first frame, same write
+	MsgLimit    int          `json:"MessageLengthLimit,omitempty"`
 	End         string       `json:"end"` // close-frame | abort | abort-in-handler | server-close-in-handler | engine-stop | engine-stop-in-handler
 	Seed        int64        `json:"seed"`
 }
@@ -256,6 +259,9 @@ func (sv *server) upgrader(cs *connState) *websocket.Upgrader {
 	u.BlockingModAsyncWrite = sv.cfg.Async
 	u.BlockingModAsyncCloseDelay = 20 * time.Millisecond
 	u.BlockingModSendQueueMaxSize = uint16(sv.cfg.QMax)
+	if cs.plan.MsgLimit > 0 {
+		u.MessageLengthLimit = cs.plan.MsgLimit
+	}
 	u.BlockingModTrasferConnToPoller = sv.cfg.Path == "transfer" || sv.cfg.Path == "transfer-std"
 	u.OnOpen(cs.onOpen)
 	u.OnMessage(cs.onMessage)
